@@ -413,6 +413,46 @@ def reduced(rec):
     rec.run('reduced/names-counts-request', [q + n_ for n_ in ('fix_parameters', 'enable_sensitivities', 'parameters', 'n_parameters', 'set_parameter_names', 'simulate', 'copy')], 'Pκ', go)
 
 
+def route_independence(rec):
+    """[bounded, numeric stand-in solver] histories that end in the same administration after the same renamings report the same parameter
+    and output names, counts and simulation, whichever routes were set (and replaced) before: 'rename, direct' against 'rename, indirect,
+    direct' against 'rename, direct, direct'.  Nothing is assumed about whether an administration keeps or resets earlier renamings --
+    only that the answer does not depend on the route that was set before."""
+    from contracts import mech_native
+    opmap = dict(ops())
+    pres = [(), ('rename_par',), ('rename_out',), ('rename_par', 'rename_out'), ('rename_first_par',), ('out_last', 'rename_out'), ('sens_on', 'rename_par')]
+    cases = [(prog, pre, last) for prog in ('pk_one_comp', 'full_pkpd', 'generated') for pre in pres for last in ('adm_direct', 'adm_indirect')]
+
+    def one(case):
+        prog, pre, last = case
+        other = 'adm_indirect' if last == 'adm_direct' else 'adm_direct'
+        seen = {}
+        for mid in ((), (other,), (last,), (other, last), (last, other)):
+            m = mech_native._native_program(prog)
+            hist = tuple(pre) + tuple(mid) + (last,)
+            try:
+                for nm in hist:
+                    opmap[nm](m)
+            except EXPECTED_ERRORS:
+                continue
+            x = np.linspace(0.6, 1.4, m.n_parameters())
+            sim = m.simulate(x, [0.5, 1.5, 3.0])
+            sim = sim[0] if isinstance(sim, tuple) else sim
+            seen[hist] = (list(m.parameters()), list(m.outputs()), m.n_parameters(), m.n_outputs(), np.asarray(sim, dtype=float))
+        ref_h = min(seen, key=len) if seen else None
+        for h_, v_ in seen.items():
+            r_ = seen[ref_h]
+            if v_[:4] != r_[:4]:
+                return '%s: after [%s] the model reports parameters %s and outputs %s; after [%s], which ends in the same administration after the same renamings, %s and %s' % (
+                    prog, ' -> '.join(h_), v_[0], v_[1], ' -> '.join(ref_h), r_[0], r_[1])
+            if v_[4].shape != r_[4].shape or not np.allclose(v_[4], r_[4], rtol=1e-6, atol=1e-9):
+                return '%s: the simulation after [%s] differs from the one after [%s]' % (prog, ' -> '.join(h_), ' -> '.join(ref_h))
+        return None
+    q = 'chi._mechanistic_models.'
+    rec.native_check('names.route-independent', [q + 'PKPDModel.set_administration', q + 'SBMLModel.set_parameter_names', q + 'SBMLModel.set_output_names', q + 'SBMLModel.parameters', q + 'SBMLModel.outputs'],
+                     cases, one, '3 programs x 7 renaming / selection prefixes x 2 final routes, each reached through 5 route histories; distinct by (program, prefix, final route)', exhaustive=True)
+
+
 def tasks():
     names = [n for n, _ in ops() if n != 'noop']
     out = []
@@ -424,6 +464,7 @@ def tasks():
     for prog in ('pk_one_comp', 'full_pkpd', 'generated2'):
         out.append(('%s:induction-step' % prog, (lambda rec, prog=prog: induction_step(rec, prog))))
     out.append(('reduced', reduced))
+    out.append(('route-independence', route_independence))
     return out
 
 
